@@ -89,11 +89,14 @@ def run(ctx):
     # ---- R3 order independence (order taint)
     r = ctx.rule("R3", "member cycle and partition list are built through sorted()/sort()", 2, "A")
     it = unparse(main.stmt.iter)
-    sorts = [n for n in cf.nodes if any(call_name(c) == "sort" and call_recv(c) == it for c in n.calls())]
+    # sorted by the pairs themselves: a key function that does not separate every pair leaves ties in the order of the set
+    def _total(c_):
+        return not [k_ for k_ in c_.keywords if k_.arg == "key"]
+    sorts = [n for n in cf.nodes if any(call_name(c) == "sort" and call_recv(c) == it and _total(c) for c in n.calls())]
     assigned_sorted = any(isinstance(x, ast.Assign) and unparse(x.targets[0]) == it and isinstance(x.value, ast.Call) and
-                          call_name(x.value) == "sorted" for x in walk_body_shallow(rra.body))
+                          call_name(x.value) == "sorted" and _total(x.value) for x in walk_body_shallow(rra.body))
     r.check((bool(sorts) and cf.dominates([s.id for s in sorts], main.id)) or assigned_sorted or
-            (isinstance(main.stmt.iter, ast.Call) and call_name(main.stmt.iter) == "sorted"),
+            (isinstance(main.stmt.iter, ast.Call) and call_name(main.stmt.iter) == "sorted" and _total(main.stmt.iter)),
             "%s#partition-order-untainted" % rra.qname,
             "the (topic, partition) sequence is built from a set/dict without sorting", where(rra, main.stmt),
             "two leaders (or one leader given two member orders) compute different assignments")
@@ -188,6 +191,10 @@ def run(ctx):
         lv = unparse(load[0].stmt.targets[0]) if isinstance(load[0].stmt, ast.Assign) else None
         gc = [c for c in regen[0].calls() if call_name(c) == "generate_assignments"][0]
         ok = lv is not None and norm(kwarg(gc, "topic_partitions", 1)) == lv and norm(load[0].calls()[0].args[0]) .startswith("*%s.topics" % exc[0].stmt.name)
+        # ... and from nothing but that load: a fallback to whatever is cached can hand the generator empty lists
+        og_ = value_origins(cj, regen[0].id, kwarg(gc, "topic_partitions", 1), params=jas.params) or []
+        ok = ok and bool(og_) and all(isinstance(e_, (ast.Yield, ast.Await)) and isinstance(e_.value, ast.Call) and call_name(e_.value) == "_load_topic_partitions"
+                                      for _d, e_ in og_)
         gv = unparse(regen[0].stmt.targets[0]) if isinstance(regen[0].stmt, ast.Assign) else None
         sc = [c for c in sync[0].calls() if call_name(c) == "send_sync_group_request"][0]
         ok = ok and gv is not None and sc.args and norm(sc.args[0]) == gv
